@@ -200,16 +200,22 @@ class State(object):
             self.context.warning(message)
         return self
 
-    def log_exception(self, message, traceback):
-        """Log an exception"""
+    def log_exception(self, message, traceback, position=None, query=None):
+        """Log an exception (optionally with the position and the query it belongs to)"""
         if self.context is None:
             self.metadata["log"].append(
-                dict(kind="error", message=message, traceback=traceback)
+                dict(
+                    kind="error",
+                    message=message,
+                    traceback=traceback,
+                    position=None if position is None else position.to_dict(),
+                    query=query,
+                )
             )
             self.is_error = True
             self.metadata["message"] = message
         else:
-            self.context.exception(message, traceback)
+            self.context.exception(message, traceback, position=position, query=query)
         return self
 
     def log_info(self, message):
